@@ -24,6 +24,11 @@ func init() {
 		Doc: "acknowledgements blacked out after the handshake: exactly N Sends return, the next one blocks until the blackout ends and an ACK frees a slot",
 	})
 	simrt.Register(&simrt.Scenario{
+		Prop: "C09", Name: "send-wakeup", Count: tiered(1500, 240000),
+		Run: c09Wakeup, MaxOps: 2 << 20, Horizon: 2 * time.Hour,
+		Doc: "Send blocks only while the window is full: (a) a stream of messages over a fault-free link with a resend timeout far above the round trip - no Send may take longer than a round trip plus a margin; (b) scripted: the ACKs of a full window are lost, a DATA packet is duplicated, the peer's NACK(top) empties the window - the blocked Send must return then, not at the next resend tick",
+	})
+	simrt.Register(&simrt.Scenario{
 		Prop: "C09", Name: "window-arith", Enumerated: true, Count: fixed(len(c09S)),
 		Run: c09Arith, MaxOps: 1 << 40, Serial: true,
 		Doc: "exhaustive per sequence space s: every (base, top) window state x every ACK and NACK value 0..255 through processACK/processNACK; base may move only within [old base, old top], top never moves, both stay < s",
@@ -438,4 +443,123 @@ func c09Arith(rc *simrt.RunCtx) {
 	rc.ProbeN("c09.arith-cases", cases)
 	rc.Progress()
 	rc.Fault(fmt.Sprintf("enumerated-s=%d", s))
+}
+
+
+// c09Wakeup: a Send that was blocked on a full window returns as soon as an
+// acknowledgement has freed a slot - not at the next timer tick.
+func c09Wakeup(rc *simrt.RunCtx) {
+	n := uint8(1 + rc.Pick(3, "knob.n"))
+	lat := time.Duration(1+rc.Pick(10, "net.lat")) * time.Millisecond
+	resend := time.Duration(2+rc.Pick(4, "knob.resend")) * time.Second
+	tk := tknobs{handshake: 300 * time.Millisecond, static: true, resend: resend}
+	scripted := rc.Pick(3, "wl.mode") == 2
+	if !scripted && rc.Pick(2, "net.zero-latency") == 1 {
+		// an in-process transport: the acknowledgement can be back while
+		// the sender is still on its way into the full-window wait
+		lat = 0
+	}
+	rc.Knob("case", fmt.Sprintf("N=%d lat=%v resend=%v scripted-nack=%v", n, lat, resend, scripted))
+	c2s := &netCfg{latMin: lat, latMax: lat}
+	s2c := &netCfg{latMin: lat, latMax: lat}
+	np := newNetPair(rc, c2s, s2c)
+	opts := []Option{WithTimeoutOptions(tk.opts()...)}
+	p := startPair(rc, np, n, opts, opts)
+	if !p.waitBoth(time.Minute) {
+		rc.HarnessError("fault-free handshake did not complete")
+		p.closeAll()
+		return
+	}
+	cli, e1 := p.cli.get()
+	srv, e2 := p.srv.get()
+	if e1 != nil || e2 != nil || cli == nil || srv == nil {
+		rc.HarnessError("fault-free handshake failed: %v %v", e1, e2)
+		p.closeAll()
+		return
+	}
+	defer p.closeAll()
+	go func() {
+		for {
+			if _, err := srv.Recv(); err != nil {
+				return
+			}
+		}
+	}()
+	margin := 2*lat + 60*time.Millisecond
+	if !scripted {
+		msgs := 40 + rc.Pick(200, "wl.msgs")
+		rc.Sample("N=%d one-way %v resend %v: %d messages back to back over a fault-free link", n, lat, resend, msgs)
+		for i := 0; i < msgs; i++ {
+			t0 := rc.Now()
+			if err := cli.Send(mkMsg('A', i, 12)); err != nil {
+				rc.HarnessError("Send on a fault-free link: %v", err)
+				return
+			}
+			if d := rc.Now() - t0; d > margin {
+				rc.Violate("c09.send-blocks", "blocked-on-free-window", "Send #%d took %v on a fault-free link with a round trip of %v (N=%d, resend timeout %v): the acknowledgement that freed the window arrived long before, the Send only returned at a timer tick", i, d, 2*lat, n, resend)
+				return
+			}
+		}
+		rc.Progress()
+		rc.Fault("back-to-back-sends")
+		return
+	}
+	// scripted: the ACKs of the first N messages are lost, the last of them
+	// is duplicated by the transport: the peer answers the duplicate with
+	// NACK(top), which acknowledges everything
+	rc.Sample("N=%d one-way %v resend %v: ACKs of a full window lost, last DATA duplicated, NACK(top) frees the window", n, lat, resend)
+	var mu sync.Mutex
+	lostAcks, nackAt := 0, time.Duration(-1)
+	np.s2c.filter = func(b []byte, _ time.Duration) (byte, time.Duration) {
+		mu.Lock()
+		defer mu.Unlock()
+		if len(b) >= 2 && b[0] == ACK && lostAcks < int(n) {
+			lostAcks++
+			return 'x', 0
+		}
+		return 0, 0
+	}
+	np.s2c.tap = func(b []byte) {
+		if len(b) >= 2 && b[0] == NACK {
+			mu.Lock()
+			if nackAt < 0 {
+				nackAt = rc.Now()
+			}
+			mu.Unlock()
+		}
+	}
+	np.c2s.filter = func(b []byte, _ time.Duration) (byte, time.Duration) {
+		if len(b) >= 4 && b[0] == DATA && b[1] == n-1 {
+			return '2', 5 * time.Millisecond // the copy arrives right behind
+		}
+		return 0, 0
+	}
+	for i := 0; i < int(n); i++ {
+		if err := cli.Send(mkMsg('A', i, 12)); err != nil {
+			rc.HarnessError("Send %d: %v", i, err)
+			return
+		}
+	}
+	done := make(chan time.Duration, 1)
+	go func() {
+		cli.Send(mkMsg('A', int(n), 12))
+		done <- rc.Now()
+	}()
+	select {
+	case at := <-done:
+		mu.Lock()
+		na := nackAt
+		mu.Unlock()
+		if na >= 0 && at-na > margin {
+			rc.Violate("c09.send-blocks", "blocked-after-nack-freed-window", "the NACK that acknowledged the whole window reached the sender at %v, the blocked Send returned %v later (round trip %v, resend timeout %v, N=%d)", na, at-na, 2*lat, resend, n)
+			return
+		}
+		if na < 0 {
+			rc.Probe("c09.wakeup-no-nack-seen")
+		}
+		rc.Progress()
+		rc.Fault("nack-top-frees-window")
+	case <-time.After(10 * time.Minute):
+		rc.Violate("c09.send-blocks", "still-blocked-after-acks", "10 virtual minutes after the window was acknowledged the Send is still blocked (N=%d)", n)
+	}
 }
